@@ -80,7 +80,14 @@ func (k Keeper) ChangeExecutor(ctx context.Context, plan types.ExecutorChangePla
 		return err
 	}
 	params.BridgeExecutors = plan.NextExecutors
-	if err := k.SetParams(ctx, params); err != nil {
+	if err := params.Validate(k.authKeeper.AddressCodec()); err != nil {
+		return err
+	}
+
+	// only the executors change here; the replaced validators are still stored
+	// (with zero power) until the validator updates of this block purge them,
+	// so the max validators bound of SetParams must not abort the end-blocker.
+	if err := k.Params.Set(ctx, params); err != nil {
 		return err
 	}
 	return nil
